@@ -3,6 +3,8 @@ package main
 import (
 	"crypto/tls"
 	"fmt"
+	"github.com/pion/rtp"
+	"strings"
 
 	"github.com/bluenviron/gortsplib/v5"
 
@@ -65,6 +67,19 @@ func startOnce(env *sysx.Env, side, field, variant string, v int) (err error, pa
 		got := s.MaxPacketSize
 		if field != "max-packet-size" {
 			got = s.WriteQueueSize
+		}
+		if field == "max-packet-size" && v != 0 && v <= 64 {
+			// an accepted maximum, however small, must make an oversized write fail - not crash: a stream
+			// without readers still marshals (and, with TLS, protects) the packet
+			st := &gortsplib.ServerStream{Server: s, Desc: sysx.DefaultDesc(1)}
+			if e := st.Initialize(); e == nil {
+				werr := st.WritePacketRTP(st.Desc.Medias[0], &rtp.Packet{Header: rtp.Header{Version: 2, PayloadType: 96, SequenceNumber: 1}, Payload: make([]byte, 64)})
+				st.Close()
+				if werr == nil {
+					s.Close()
+					return fmt.Errorf("C18-WRITE: a 76-byte packet was accepted by a stream whose server has MaxPacketSize %d", v), nil
+				}
+			}
 		}
 		s.Close()
 		if v != 0 && got != v {
@@ -130,6 +145,10 @@ func runStart(j StartJob) (out StartOut) {
 				kind = "write-queue-size-accepted-non-power-of-two"
 			}
 			out.Vios = append(out.Vios, Vio{fmt.Sprintf("start/%s/%s", j.Side, kind), det})
+		case err != nil && strings.HasPrefix(err.Error(), "C18-WRITE"):
+			out.Accepted++
+			det["error"] = err.Error()
+			out.Vios = append(out.Vios, Vio{fmt.Sprintf("start/%s/oversized-write-accepted-with-small-maximum", j.Side), det})
 		case err != nil && want:
 			out.Rejected++
 			det["error"] = err.Error()
